@@ -7,15 +7,17 @@ CHECKS = {'C10': {'level': 'exploration',
          'technique': 'bounded-exhaustive enumeration of tiny datasets (schema x samples x one value per sample and '
                       'feature incl. missing and ties) x gradient tensors x sample lists x learners, against a '
                       'brute-force search over the documented hypothesis classes on the plain table of values',
-         'level_text': 'every dataset of 2..4 (thorough: 2..6) samples with one feature and of 2..3 (thorough: 2..4) '
-                       'samples with two features (scalar over {0,1,2,missing}, single-label over 2 or 3 classes, '
-                       'multi-label over 2 labels; 8 schemas), 1 and 2 outputs, every gradient tensor over {0,-1,2} '
-                       '(two outputs: complete up to 3 samples, a stated thin rule above) and 4 sample lists (all, '
-                       'all-but-last, (0,0,1), reversed with a repetition) is fitted with stump, hinge, affine, dense '
-                       'and dstep tables under the rss criterion and compared with the brute-force minimum of the '
-                       'class; the consistency clauses are checked for all 4 criteria and all 8 learners (trees of '
-                       'depth 1 and 2) on the smaller half of that space and for 1, 2 and 16 threads; a complete '
-                       'small-scope enumeration, not a proof for more samples, more features or other values',
+         'level_text': 'every dataset of 2..4 (thorough: 2..6, two outputs 2..5) samples with one feature and of 2..3 '
+                       '(thorough: 2..4, two outputs 2..3) samples with two features (9 schemas: scalar over '
+                       '{0,1,2,missing} or {0,1,2,3,missing}, single-label over 2 or 3 classes, multi-label over 2 '
+                       'labels, and pairs of them), 1 and 2 outputs, every gradient tensor over {0,-1,2} (two '
+                       'outputs: complete up to 2 (thorough 3) samples, a stated thin rule above) and 4 sample lists '
+                       '(all, all-but-last, (0,0,1), reversed with a repetition) is fitted with stump, hinge, affine, '
+                       'dense and dstep tables under the rss criterion and compared with the brute-force minimum of '
+                       'the class; the consistency clauses are checked for all 4 criteria and all 8 learners (trees '
+                       'of depth 1 and 2) on datasets of 2..3 (thorough 2..4) samples, and for 1, 2 and 16 threads on '
+                       'the two schemas with two features of one kind; a complete small-scope enumeration, not a '
+                       'proof for more samples, more features or other values',
          'level_note': 'trusted: the brute-force reference (two-pass means and least squares in long double on the '
                        'enumerated table), the dataset layer (property C08; feature types, sizes and target '
                        'dimensions are compared with the table and a difference aborts the check), g++ 12, the '
@@ -26,7 +28,7 @@ CHECKS = {'C10': {'level': 'exploration',
                  'explain); consistency: non-trivial when the learner fitted and predicts a non-zero value for at '
                  'least one sample. A learner that reports no_fit_score is counted as a trivial outcome (and must '
                  'then have an empty class in the optimal stage)',
-         'assumptions': ['more than 6 samples / 2 features and feature values beyond 3 levels are not covered',
+         'assumptions': ['more than 6 samples / 2 features and feature values beyond 3 (one schema: 4) levels are not covered',
                          'hypothesis classes as documented in include/nano/wlearner/*.h: residual = negative gradient; '
                          'a sample whose selected feature is missing is predicted 0 and contributes its squared '
                          'gradient; stump / hinge thresholds are the mid-points between distinct consecutive given '
